@@ -48,7 +48,23 @@ type Store struct {
 	KV     db.KeyValueStore
 	reopen func() (db.KeyValueStore, error) // nil: not durable (db/memory)
 	flush  func(db.KeyValueStore) error     // force memtable -> sstable + compaction; nil: nothing to do
-	clean  func()
+	// crash: power loss — whatever the file system was not told to sync is gone — followed by a restart on
+	// what is left; nil: not durable (db/memory: "crash" keeps the content, i.e. it stands for the ideal
+	// store in which every acknowledged write survives) or not on a crashable file system
+	crash func(db.KeyValueStore) (db.KeyValueStore, error)
+	clean func()
+}
+
+// listenerIO / listenerCommit count the calls of the db.EventListener installed with WithListener on the
+// pebble backends that run on real directories (every 10th sequence): the same results are demanded
+// with and without a listener
+var listenerIO, listenerCommit atomic.Int64
+
+func withListener(s db.KeyValueStore) db.KeyValueStore {
+	return s.WithListener(&db.SelectiveListener{
+		OnIOCb:     func(bool, time.Duration) { listenerIO.Add(1) },
+		OnCommitCb: func(time.Duration) { listenerCommit.Add(1) },
+	})
 }
 
 var scratchRoot = "/tmp/aC15"
@@ -68,10 +84,29 @@ func memoryBackend() Backend {
 
 // pebble backends: on pebble's in-memory file system (what juno's own tests use) or on a real
 // directory; small memtables so that larger sequences reach sstables on their own
-func pebble1Backend(disk bool) Backend {
+func pebble1Backend(disk bool) Backend { return pebble1BackendX(disk, false) }
+
+func pebble1BackendX(disk, crashable bool) Backend {
 	return Backend{"pebble1", func() (*Store, error) {
 		dir, clean := "c15", func() {}
 		var fs cvfs.FS = cvfs.NewMem()
+		var strict *cvfs.MemFS
+		if crashable {
+			strict = cvfs.NewStrictMem()
+			fs = strict
+			// the store's directory itself must survive the power loss (pebble does not sync the parent)
+			if err := strict.MkdirAll(dir, 0o755); err != nil {
+				return nil, err
+			}
+			root, err := strict.OpenDir("/")
+			if err != nil {
+				return nil, err
+			}
+			if err := root.Sync(); err != nil {
+				return nil, err
+			}
+			root.Close()
+		}
 		if disk {
 			d, err := tempDir()
 			if err != nil {
@@ -80,19 +115,23 @@ func pebble1Backend(disk bool) Backend {
 			dir, clean, fs = d, func() { os.RemoveAll(d) }, cvfs.Default
 		}
 		open := func() (db.KeyValueStore, error) {
-			return pebblev1.New(dir, func(o *cpebble.Options) error {
+			s, err := pebblev1.New(dir, func(o *cpebble.Options) error {
 				o.FS = fs
 				o.Logger = nopLogger{}
 				o.MemTableSize = 64 << 10
 				return nil
 			})
+			if err == nil && crashable {
+				s = withListener(s)
+			}
+			return s, err
 		}
 		s, err := open()
 		if err != nil {
 			clean()
 			return nil, err
 		}
-		return &Store{KV: s, reopen: open, clean: clean, flush: func(s db.KeyValueStore) error {
+		st := &Store{KV: s, reopen: open, clean: clean, flush: func(s db.KeyValueStore) error {
 			p, ok := s.Impl().(*cpebble.DB)
 			if !ok {
 				return fmt.Errorf("Impl() is %T", s.Impl())
@@ -101,14 +140,43 @@ func pebble1Backend(disk bool) Backend {
 				return err
 			}
 			return p.Compact([]byte{}, []byte{0xff, 0xff, 0xff, 0xff, 0xff}, true)
-		}}, nil
+		}}
+		if strict != nil {
+			st.crash = func(old db.KeyValueStore) (db.KeyValueStore, error) {
+				// nothing written from now on (Close flushes) reaches the "disk"; then drop what was never synced
+				strict.SetIgnoreSyncs(true)
+				lib.Try(func() error { return old.Close() })
+				strict.ResetToSyncedState()
+				strict.SetIgnoreSyncs(false)
+				return open()
+			}
+		}
+		return st, nil
 	}}
 }
 
-func pebble2Backend(disk bool) Backend {
+func pebble2Backend(disk bool) Backend { return pebble2BackendX(disk, false) }
+
+func pebble2BackendX(disk, crashable bool) Backend {
 	return Backend{"pebble2", func() (*Store, error) {
 		dir, clean := "c15", func() {}
 		var fs cvfs2.FS = cvfs2.NewMem()
+		var crashFS *cvfs2.MemFS
+		if crashable {
+			crashFS = cvfs2.NewCrashableMem()
+			fs = crashFS
+			if err := crashFS.MkdirAll(dir, 0o755); err != nil {
+				return nil, err
+			}
+			root, err := crashFS.OpenDir("/")
+			if err != nil {
+				return nil, err
+			}
+			if err := root.Sync(); err != nil {
+				return nil, err
+			}
+			root.Close()
+		}
 		if disk {
 			d, err := tempDir()
 			if err != nil {
@@ -117,19 +185,23 @@ func pebble2Backend(disk bool) Backend {
 			dir, clean, fs = d, func() { os.RemoveAll(d) }, cvfs2.Default
 		}
 		open := func() (db.KeyValueStore, error) {
-			return pebblev2.New(dir, func(o *cpebble2.Options) error {
+			s, err := pebblev2.New(dir, func(o *cpebble2.Options) error {
 				o.FS = fs
 				o.Logger = nopLogger{}
 				o.MemTableSize = 64 << 10
 				return nil
 			})
+			if err == nil && (disk || crashable) {
+				s = withListener(s)
+			}
+			return s, err
 		}
 		s, err := open()
 		if err != nil {
 			clean()
 			return nil, err
 		}
-		return &Store{KV: s, reopen: open, clean: clean, flush: func(s db.KeyValueStore) error {
+		st := &Store{KV: s, reopen: open, clean: clean, flush: func(s db.KeyValueStore) error {
 			p, ok := s.Impl().(*cpebble2.DB)
 			if !ok {
 				return fmt.Errorf("Impl() is %T", s.Impl())
@@ -138,7 +210,17 @@ func pebble2Backend(disk bool) Backend {
 				return err
 			}
 			return p.Compact(context.Background(), []byte{}, []byte{0xff, 0xff, 0xff, 0xff, 0xff}, true)
-		}}, nil
+		}}
+		if crashFS != nil {
+			st.crash = func(old db.KeyValueStore) (db.KeyValueStore, error) {
+				// the file system as a power loss leaves it: exactly what was synced
+				crashFS = crashFS.CrashClone(cvfs2.CrashCloneCfg{UnsyncedDataPercent: 0})
+				fs = crashFS
+				lib.Try(func() error { return old.Close() }) // (the old instance writes to the old file system)
+				return open()
+			}
+		}
+		return st, nil
 	}}
 }
 
@@ -356,9 +438,13 @@ func (w *World) Exec(o Op) (out string) {
 	if w.poisoned {
 		return "poisoned"
 	}
-	deadline := 5 * time.Second
+	// Generous: on a loaded machine a synced write to a real directory can stall for seconds, and a
+	// deadline that fires on the unchanged tree would be a false alarm. A call that really never returns
+	// (db/memory's Get calling back under the store lock, before 94ab97c) costs the whole deadline once per
+	// call; re-entrant calls are few.
+	deadline := 180 * time.Second
 	if o.K == "getw" || o.K == "xupdate" {
-		deadline = 1500 * time.Millisecond
+		deadline = 25 * time.Second
 	}
 	res := make(chan string, 1)
 	go func() {
@@ -459,12 +545,18 @@ func (w *World) exec(o Op) string {
 		}
 		w.batches = append(w.batches, b)
 		return "h:" + strconv.Itoa(len(w.batches)-1)
-	case "bput", "bdel", "bdelrange", "bsize", "bwrite", "bclose":
+	case "bput", "bdel", "bdelrange", "bsize", "bwrite", "bclose", "bflush":
 		b := w.batch(o.H)
 		if b == nil {
 			return "bad-handle"
 		}
 		switch o.K {
+		case "bflush":
+			bb, ok := b.(*db.BufferBatch)
+			if !ok {
+				return "bad-handle"
+			}
+			return classify(bb.Flush())
 		case "bput":
 			return classify(b.Put(bs(o.Key, o.NilB), bs(o.Val, o.NilB)))
 		case "bdel":
@@ -585,6 +677,8 @@ func (w *World) exec(o Op) string {
 		return strings.Join(outs, ";") + " -> " + classify(err)
 	case "xupdate":
 		return w.xupdate(o)
+	case "psize":
+		return w.prefixSize(bs(o.Key, o.NilB), o.U)
 	case "flush":
 		if w.st.flush == nil || w.closed {
 			return "ok"
@@ -609,6 +703,20 @@ func (w *World) exec(o Op) string {
 		if err != nil {
 			w.closed = true
 			return "reopen-" + classify(err)
+		}
+		w.store, w.st.KV = s, s
+		return "ok"
+	case "crash":
+		if w.closed {
+			return "err:closed"
+		}
+		if w.st.crash == nil {
+			return "ok"
+		}
+		s, err := w.st.crash(w.store)
+		if err != nil {
+			w.closed = true
+			return "restart-" + classify(err)
 		}
 		w.store, w.st.KV = s, s
 		return "ok"
@@ -683,4 +791,44 @@ func (w *World) xupdate(o Op) string {
 		return "bad-op"
 	}
 	return classify(err) + " " + doScan(w.store, Op{})
+}
+
+// prefixSize: CalculatePrefixSize of the pebble packages; db/memory has no such function, there the
+// same loop runs over its iterator.
+func (w *World) prefixSize(prefix []byte, u bool) string {
+	switch s := w.store.(type) {
+	case *pebblev2.DB:
+		it, err := pebblev2.CalculatePrefixSize(context.Background(), s, prefix, u)
+		if err != nil {
+			return classify(err)
+		}
+		return fmt.Sprintf("n:%d:%d", it.Count, int64(it.Size))
+	case *pebblev1.DB:
+		it, err := pebblev1.CalculatePrefixSize(context.Background(), s, prefix, u)
+		if err != nil {
+			return classify(err)
+		}
+		return fmt.Sprintf("n:%d:%d", it.Count, int64(it.Size))
+	}
+	it, err := w.store.NewIterator(prefix, u)
+	if err != nil {
+		return classify(err)
+	}
+	count, size := 0, 0
+	for it.First(); it.Valid(); it.Next() {
+		v, err := it.Value()
+		if err != nil {
+			it.Close()
+			return classify(err)
+		}
+		count++
+		size += len(it.Key()) + len(v)
+		if count > scanCap {
+			break
+		}
+	}
+	if err := it.Close(); err != nil {
+		return "close-" + classify(err)
+	}
+	return fmt.Sprintf("n:%d:%d", count, size)
 }
